@@ -83,7 +83,7 @@ def main():
                     ops_real.append([k for k in keys])        # multiunion wants a sequence of iterables
                 else:
                     ops_real.append(keys)
-            if rep % 3 == 2:
+            if total >= 1:
                 # bare integers at both ends of the family's range (and next to them), among the other operands
                 for r_ in (len(K), 1, len(K) - 1, 2, len(K)):
                     at = rng.randint(0, len(ops_model))
